@@ -103,11 +103,12 @@ class C06Engine(hist.Engine):
         src = self.rng.choice(cands)
         # identifiers of entities that were removed (through the parent: detached, possibly not collected yet) are free again
         before = {str(e.uid) for _, e in all_entities(self.ws)} - set(self.model.removed)
+        undecided = {str(e.uid) for _, e in all_entities(self.ws)} & set(self.model.removed)
         src_uids = subtree_uids(src)
         op.update(cls=type(src).__name__, target=str(src.uid))
         new = src.copy(parent=self.ws.root, copy_children=True)
         self.rec.see("copies-other-ws")
-        judge_cross_copy(self.rec, src, new, before, "copy_back")
+        judge_cross_copy(self.rec, src, new, before, "copy_back", undecided)
         # learn the new subtree wholesale (names may now be ambiguous: model only tracks existence here)
         self._learn_foreign(new, self.model.root)
 
@@ -125,8 +126,9 @@ hist.DEFAULT_WEIGHTS.setdefault("recreate", 0.0)
 hist.DEFAULT_WEIGHTS.setdefault("copy_back", 0.0)
 
 
-def judge_cross_copy(rec, src, new, target_before, where):
-    """Copy into another workspace keeps the originals' uids whenever they were free there."""
+def judge_cross_copy(rec, src, new, target_before, where, undecided=()):
+    """Copy into another workspace keeps the originals' uids whenever they were free there.  `undecided`: identifiers of
+    entities that were removed but may not have been collected yet: free or in use depending on the collector, either is right."""
     if new is None:
         rec.fail("C06.copy-other-ws-uid", op=where, cls=type(src).__name__, attr="none", detail="cross-workspace copy returned None")
         return
@@ -134,7 +136,9 @@ def judge_cross_copy(rec, src, new, target_before, where):
     while pairs:
         s, n = pairs.pop()
         su = str(s.uid)
-        if su not in target_before:
+        if su in undecided:
+            rec.see("copy-uid-undecided")
+        elif su not in target_before:
             rec.check("C06.copy-other-ws-uid", str(n.uid) == su, op=where, cls=type(s).__name__, attr="uid", detail=f"uid {su} was free in the target but the copy got {n.uid}")
         else:
             rec.check("C06.copy-other-ws-uid", str(n.uid) != su, op=where, cls=type(s).__name__, attr="uid-in-use", detail=f"uid {su} was in use in the target and the copy reused it")
